@@ -1,4 +1,5 @@
 import DryocVerif.Proofs.Poly1305Main
+import DryocVerif.Proofs.Blake2bMain
 /-
 C08 — incremental hash / MAC / signing equals the one-shot result for any chunking.
 -/
@@ -15,5 +16,32 @@ theorem poly1305_chunks_eq_oneshot (key : Bytes) (hk : key.length = 32) (cs : Li
 theorem poly1305_chunks_eq_spec (key : Bytes) (hk : key.length = 32) (cs : List Bytes) :
     Model.Poly1305.macChunks key cs = Spec.Poly1305.mac key cs.flatten :=
   Proofs.Poly1305.macChunks_eq_spec key hk cs
+
+/-! ### BLAKE2b buffering — for ANY compression function (software and SIMD backend share this code) -/
+
+open DryocVerif.Model.Blake2b in
+/-- `init; update c₁; …; update cₙ; finalize` depends only on the concatenation of the chunks — for every
+compression function `C`, every digest length, key, salt, personal and every list of chunks (empty chunks,
+chunks straddling or exactly filling the 128-byte buffer, multiples of the block size, …). -/
+theorem blake2b_chunks_eq_oneshot (C : Compress) (outLen : Nat) (key salt personal : Option Bytes) (cs : List Bytes) :
+    hashChunksC C outLen key salt personal cs = hashChunksC C outLen key salt personal [cs.flatten] :=
+  Proofs.Blake2b.hashChunksC_eq C outLen key salt personal cs
+
+open DryocVerif.Model.Blake2b in
+/-- the held-back buffer never exceeds one block: the `buf.len() > BLOCKBYTES` branch of `finalize` is dead -/
+theorem blake2b_buf_le_128 (C : Compress) (st : State) (h : Proofs.Blake2b.Reachable C st) : st.buf.length ≤ 128 :=
+  Proofs.Blake2b.buf_le_128 C st h
+
+open DryocVerif.Model.Blake2b in
+/-- incremental generic hash (classic API) = RFC 7693 on the concatenation, incl. salt / personal -/
+theorem generichash_chunks_eq_spec (outLen : Nat) (key : Bytes) (salt personal : Option Bytes)
+    (cs : List Bytes) (ho : 16 ≤ outLen ∧ outLen ≤ 64)
+    (hk : key = [] ∨ (16 ≤ key.length ∧ key.length ≤ 64))
+    (hs : ∀ s, salt = some s → s.length = 16) (hp : ∀ s, personal = some s → s.length = 16)
+    (hlen : cs.flatten.length + 128 < 2^128) :
+    ∃ st, generichashInit (Proofs.Blake2b.keyOpt key) outLen salt personal = .ok st ∧
+      generichashFinal (cs.foldl generichashUpdate st) outLen =
+        .ok (Spec.Blake2b.hashSP outLen key (salt.getD []) (personal.getD []) cs.flatten) :=
+  Proofs.Blake2b.generichash_inc_eq_spec outLen key salt personal cs ho hk hs hp hlen
 
 end DryocVerif.Properties.C08
